@@ -1,6 +1,7 @@
 pub mod c01;
 pub mod c02;
 pub mod c03;
+pub mod c04;
 
 use symcore::Config;
 
@@ -10,6 +11,7 @@ pub fn instances(prop: &str, tier: &str, seed: u64) -> Vec<String> {
         "C01" => c01::instances(tier),
         "C02" => c02::instances(tier),
         "C03" => c03::instances(tier),
+        "C04" => c04::instances(tier),
         _ => vec![],
     }
 }
@@ -21,6 +23,7 @@ pub fn body(prop: &str, inst: &str) {
         "C01" => c01::body(inst),
         "C02" => c02::body(inst),
         "C03" => c03::body(inst),
+        "C04" => c04::body(inst),
         _ => panic!("unknown property {}", prop),
     }
 }
